@@ -801,4 +801,198 @@ Section Ins.
       apply mapn_fresh. destruct (HCB _ _ Hin) as (_ & (d & E & _)). congruence.
     Qed.
   End Ports.
+
+  (* ---------------------------------------------------------------- well-foundedness of the hierarchy *)
+  Lemma WF_ext (h h' : hugr) :
+    (forall x d', get_node h' x = Some d' -> exists d, get_node h x = Some d /\ nd_parent d = nd_parent d') ->
+    WF h -> WF h'.
+  Proof.
+    intros Hb (depth & Hd). exists depth. intros n d' q E P. destruct (Hb n d' E) as (d & E0 & P0).
+    eapply Hd; [exact E0|congruence].
+  Qed.
+
+  Lemma s_bstep_back (g : agraph) c rt g' x a' : NoDup (map fst (a_nodes g)) ->
+    s_bstep g c rt = Next g' -> (forall o p k m, c <> AddNode o p k m) -> (forall o p m, c <> AddConst o p m) ->
+    aget (a_nodes g') x = Some a' -> exists a, aget (a_nodes g) x = Some a /\ a_parent a = a_parent a'.
+  Proof.
+    intros HND Hs Hn1 Hn2 Ha.
+    assert (Hlink : forall s t, aget (a_nodes (s_add_link g s t)) x = Some a' ->
+                                exists a, aget (a_nodes g) x = Some a /\ a_parent a = a_parent a').
+    { intros s t H. rewrite s_add_link_get in H. destruct (aget (a_nodes g) x) as [a|]; [|discriminate].
+      exists a. split; [reflexivity|]. cbn in H. injection H as <-. reflexivity. }
+    destruct c as [o p k m|o p m|s t|y z|s t|n]; cbn [s_bstep] in Hs.
+    - exfalso. eapply Hn1. reflexivity.
+    - exfalso. eapply Hn2. reflexivity.
+    - destruct (port_ok g s && port_ok g t); [|discriminate]. injection Hs as <-. eauto.
+    - destruct (a_live g y && a_live g z); [|discriminate]. injection Hs as <-.
+      destruct (s_has_link g (y, (-1)%Z) (z, (-1)%Z)); eauto.
+    - injection Hs as <-. unfold s_delete_link in Ha. destruct (remove1 link_eqb (s, t) (a_links g)); cbn in Ha; eauto.
+    - destruct (aget (a_nodes g) n) as [an|] eqn:En; [|discriminate]. destruct (a_children an); [|discriminate].
+      destruct (Nat.eqb n (a_root g)); [discriminate|]. injection Hs as <-. unfold s_delete_node in Ha. cbn [a_nodes] in Ha.
+      destruct (a_parent an) as [pp|].
+      + rewrite aget_ddel in Ha by now apply a_upd_nodup. destruct (Nat.eqb x n); [discriminate|].
+        rewrite a_upd_get in Ha. destruct (Nat.eqb_spec x pp) as [->|]; [|eauto].
+        destruct (aget (a_nodes g) pp) as [pa|] eqn:Ep; [|discriminate]. cbn in Ha. injection Ha as <-.
+        exists pa. split; reflexivity.
+      + rewrite aget_ddel in Ha by assumption. destruct (Nat.eqb x n); [discriminate|eauto].
+  Qed.
+
+  Lemma add_node_WF (h : hugr) o pp k m h' n : Inv h -> WF h -> get_node h pp <> None ->
+    add_node_raw h o (Some pp) k m = (h', n, Ok) -> WF h'.
+  Proof.
+    intros (_ & HF & _ & HT) (depth & Hd) Hpp Hadd.
+    destruct (get_node h pp) as [pd|] eqn:Ep; [|congruence].
+    destruct (add_node_effect h o pp k m pd HF Ep) as (h1 & n1 & Hadd1 & Hdead & Hget & _).
+    rewrite Hadd in Hadd1. injection Hadd1 as <- <-.
+    destruct (tree_facts h HT) as (_ & Hparlive & _).
+    exists (fun x => if Nat.eqb x n then S (depth pp) else depth x).
+    intros x d q. rewrite Hget.
+    assert (Hppn : pp <> n) by (intros ->; congruence).
+    assert (Hq : forall y dy, get_node h y = Some dy -> nd_parent dy = Some q -> q <> n).
+    { intros y dy Ey Py ->. apply (Hparlive y dy n Ey Py). exact Hdead. }
+    destruct (Nat.eqb_spec x n) as [->|Hxn].
+    - intros [= <-]. cbn. intros [= <-]. destruct (Nat.eqb_spec pp n); [contradiction|]. lia.
+    - destruct (Nat.eqb_spec x pp) as [->|].
+      + intros [= <-]. cbn. intros P. pose proof (Hq pp pd Ep P). destruct (Nat.eqb_spec q n); [contradiction|].
+        eapply Hd; eassumption.
+      + intros E P. pose proof (Hq x d E P). destruct (Nat.eqb_spec q n); [contradiction|]. eapply Hd; eassumption.
+  Qed.
+
+  Lemma abs_dflt (h : hugr) p : dflt (abs h) p = match p with Some x => x | None => root h end.
+  Proof. reflexivity. Qed.
+
+  Theorem bstep_WF h c h' rt r g' : Inv h -> WF h -> bstep h c = (h', rt, r) ->
+    s_bstep (abs h) c rt = Next g' -> WF h'.
+  Proof.
+    intros HI HW Hb Hs.
+    assert (Hgen : (forall o p k m, c <> AddNode o p k m) -> (forall o p m, c <> AddConst o p m) -> WF h').
+    { intros Hn1 Hn2. pose proof (bstep_refines h (abs h) c h' rt r HI (Rep_abs h) Hb) as H. rewrite Hs in H.
+      destruct H as (_ & _ & HR'). apply (WF_ext h); [|exact HW]. intros x d' E.
+      pose proof (get_refines h' g' x HR') as Hx. rewrite E in Hx. cbn in Hx. symmetry in Hx.
+      destruct (s_bstep_back (abs h) c rt g' x _ ltac:(apply Rep_abs) Hs Hn1 Hn2 Hx) as (a & Ea & Pa).
+      pose proof (get_refines h (abs h) x (Rep_abs h)) as Hx0. rewrite Ea in Hx0.
+      destruct (get_node h x) as [d|]; [|discriminate]. exists d. split; [reflexivity|].
+      cbn in Hx0. injection Hx0 as <-. exact Pa. }
+    destruct c as [o p k m|o p m|s t|y z|s t|n]; try (apply Hgen; intros; discriminate).
+    - cbn [bstep s_bstep] in *. destruct (a_live (abs h) (dflt (abs h) p)) eqn:Hp; [|discriminate].
+      apply abs_live in Hp. rewrite abs_dflt in Hp.
+      destruct (add_node h o p k m) as [[h1 n1] r1] eqn:E. injection Hb as <- <- <-.
+      destruct (add_node_refines h (abs h) o p k m HI (Rep_abs h)) as (h2 & n2 & E2 & _).
+      { apply abs_live. now rewrite abs_dflt. }
+      rewrite E in E2. injection E2 as <- <- ->. unfold add_node in E. eapply add_node_WF; eassumption.
+    - cbn [bstep s_bstep] in *. destruct (a_live (abs h) (dflt (abs h) p)) eqn:Hp; [|discriminate].
+      apply abs_live in Hp. rewrite abs_dflt in Hp.
+      destruct (add_node h o p None m) as [[h1 n1] r1] eqn:E. injection Hb as <- <- <-.
+      destruct (add_node_refines h (abs h) o p None m HI (Rep_abs h)) as (h2 & n2 & E2 & _).
+      { apply abs_live. now rewrite abs_dflt. }
+      rewrite E in E2. injection E2 as <- <- ->. unfold add_node in E. eapply add_node_WF; eassumption.
+  Qed.
+
+  Lemma init_WF o m : WF (init o m).
+  Proof.
+    exists (fun _ => 0). intros n d q. unfold init, add_node_raw. cbn.
+    destruct n as [|[|n]]; cbn; try discriminate. intros [= <-]. cbn. discriminate.
+  Qed.
+
+  Fixpoint rev_lookup (m : mapping) (x : nid) : option nid :=
+    match m with [] => None | (c, v) :: r => if Nat.eqb v x then Some c else rev_lookup r x end.
+  Lemma rev_lookup_some m x c : rev_lookup m x = Some c -> In (c, x) m.
+  Proof.
+    induction m as [|[c0 v] r IH]; cbn; [discriminate|]. destruct (Nat.eqb_spec v x) as [->|]; [intros [= <-]; now left|].
+    intros H. right. auto.
+  Qed.
+  Lemma rev_lookup_none m x c : rev_lookup m x = None -> ~ In (c, x) m.
+  Proof.
+    induction m as [|[c0 v] r IH]; cbn; [tauto|]. destruct (Nat.eqb_spec v x) as [->|]; [discriminate|].
+    intros H [[= -> ->]|Hin]; [congruence|]. now apply IH.
+  Qed.
+
+  Theorem insert_WF (A B : hugr) p m A' : Inv A -> Inv B -> get_node A p <> None -> WF A -> WF B ->
+    IsoFrame A B p m A' -> WF A'.
+  Proof.
+    intros (_ & _ & _ & HTA) (_ & _ & _ & HTB) HpA (dA & HdA) (dB & HdB) HIF.
+    destruct (tree_facts A HTA) as (_ & HparliveA & _). destruct (tree_facts B HTB) as (_ & HparliveB & _).
+    pose proof (if_keys _ _ _ _ _ HIF) as Hk.
+    assert (Hrl : forall c c', mget m c = Some c' -> rev_lookup m c' = Some c).
+    { intros c c' E. destruct (rev_lookup m c') as [c2|] eqn:R.
+      - apply rev_lookup_some in R. apply (dget_In_iff Nat.eqb Nat.eqb_spec) in R; [|exact Hk].
+        f_equal. eapply (if_inj _ _ _ _ _ HIF); eassumption.
+      - exfalso. apply (rev_lookup_none m c' c R). now apply (dget_In_pair Nat.eqb Nat.eqb_spec). }
+    assert (Hrl2 : forall x, get_node A x <> None -> rev_lookup m x = None).
+    { intros x Hx. destruct (rev_lookup m x) as [c|] eqn:R; [|reflexivity]. apply rev_lookup_some in R.
+      apply (dget_In_iff Nat.eqb Nat.eqb_spec) in R; [|exact Hk]. now rewrite (if_fresh _ _ _ _ _ HIF _ _ R) in Hx. }
+    exists (fun x => match rev_lookup m x with Some c => S (dA p + dB c) | None => dA x end).
+    intros x d q Ex Pq.
+    destruct (if_only _ _ _ _ _ HIF x ltac:(congruence)) as [Hlive|(c & Ec)].
+    - destruct (get_node A x) as [d0|] eqn:E0; [|congruence].
+      rewrite (if_old _ _ _ _ _ HIF x d0 E0) in Ex. injection Ex as <-.
+      assert (Pq0 : nd_parent d0 = Some q) by (destruct (Nat.eqb x p); exact Pq).
+      rewrite (Hrl2 x ltac:(congruence)), (Hrl2 q (HparliveA x d0 q E0 Pq0)). eapply HdA; eassumption.
+    - rewrite (Hrl _ _ Ec).
+      assert (Hb : exists b, get_node B c = Some b).
+      { destruct (get_node B c) as [b|] eqn:E; [eauto|]. exfalso. apply (proj1 (if_dom _ _ _ _ _ HIF c)); congruence. }
+      destruct Hb as (b & Eb). destruct (if_copy _ _ _ _ _ HIF c x b Ec Eb) as (d' & Ed' & _ & _ & _ & Pd' & _).
+      assert (d = d') by congruence. subst d'. rewrite Pq in Pd'. injection Pd' as Pd'.
+      destruct (nd_parent b) as [qb|] eqn:Eqb.
+      + assert (Hqb : get_node B qb <> None) by (eapply HparliveB; eassumption).
+        apply (if_dom _ _ _ _ _ HIF) in Hqb. destruct (mget m qb) as [q'|] eqn:Em; [|congruence].
+        rewrite (mapn_get _ _ _ Em) in Pd'. subst q'. rewrite (Hrl _ _ Em).
+        pose proof (HdB c b qb Eb Eqb). lia.
+      + subst q. rewrite (Hrl2 p HpA). lia.
+  Qed.
+
+  (* ---------------------------------------------------------------- all histories, insert_hugr included *)
+  (* a call is inside the property's guard when the specification accepts it on the abstraction of the state:
+     live node arguments, offsets >= -1, deletion of a non-root leaf; insert_hugr of a HUGR that was itself
+     built inside the guard, under a live parent *)
+  Fixpoint bguarded (h : hugr) (cs : list (bcmd Op Meta)) : Prop :=
+    match cs with
+    | [] => True
+    | c :: r => let '(h', rt, _) := bstep h c in (exists g', s_bstep (abs h) c rt = Next g') /\ bguarded h' r
+    end.
+  Definition guarded1 (h : hugr) (c : cmd Op Meta) : Prop :=
+    match c with
+    | Basic b => let '(_, rt, _) := bstep h b in exists g', s_bstep (abs h) b rt = Next g'
+    | Insert o m _ src p =>
+        bguarded (init o m) (map fst src) /\ get_node h (match p with Some x => x | None => root h end) <> None
+    end.
+  Fixpoint guarded (h : hugr) (cs : list (cmd Op Meta)) : Prop :=
+    match cs with
+    | [] => True
+    | c :: r => guarded1 h c /\ guarded (fst (fst (step h c))) r
+    end.
+  Definition run (h : hugr) (cs : list (cmd Op Meta)) : hugr := fold_left (fun s c => fst (fst (step s c))) cs h.
+
+  Lemma bstep_inv h c h' rt r : Inv h -> WF h -> bstep h c = (h', rt, r) ->
+    (exists g', s_bstep (abs h) c rt = Next g') -> r = Ok /\ Inv h' /\ WF h'.
+  Proof.
+    intros HI HW Hb (g' & Hs). pose proof (bstep_refines h (abs h) c h' rt r HI (Rep_abs h) Hb) as H.
+    rewrite Hs in H. destruct H as (Hr & HI' & _). split; [exact Hr|]. split; [exact HI'|].
+    exact (bstep_WF h c h' rt r g' HI HW Hb Hs).
+  Qed.
+  Lemma brun_inv cs : forall h, Inv h -> WF h -> bguarded h cs -> Inv (brun h cs) /\ WF (brun h cs).
+  Proof.
+    induction cs as [|c r IH]; intros h HI HW HG; cbn [brun fold_left]; [auto|].
+    cbn [bguarded] in HG. destruct (bstep h c) as [[h' rt] res] eqn:E. destruct HG as [Hg HG].
+    destruct (bstep_inv h c h' rt res HI HW E Hg) as (_ & HI' & HW'). cbn [fst]. now apply IH.
+  Qed.
+
+  Theorem step_inv h c : Inv h -> WF h -> guarded1 h c ->
+    snd (step h c) = Ok /\ Inv (fst (fst (step h c))) /\ WF (fst (fst (step h c))).
+  Proof.
+    intros HI HW HG. destruct c as [b|o m br src p]; cbn [step guarded1] in *.
+    - destruct (bstep h b) as [[h' rt] r] eqn:E. cbn [fst snd]. exact (bstep_inv h b h' rt r HI HW E HG).
+    - destruct HG as [HGs Hp]. destruct (init_inv o m) as [HI0 _].
+      destruct (brun_inv (map fst src) (init o m) HI0 (init_WF o m) HGs) as [HIB HWB].
+      destruct (insert_ok h (brun (init o m) (map fst src)) p HI HIB HWB Hp) as (A' & mp & Hins & HI' & HIF).
+      rewrite Hins. cbn [fst snd]. split; [reflexivity|]. split; [exact HI'|].
+      exact (insert_WF h _ _ mp A' HI HIB Hp HW HWB HIF).
+  Qed.
+  Theorem run_inv cs : forall h, Inv h -> WF h -> guarded h cs -> Inv (run h cs) /\ WF (run h cs).
+  Proof.
+    induction cs as [|c r IH]; intros h HI HW HG; cbn [run fold_left]; [auto|].
+    destruct HG as [Hg HG]. destruct (step_inv h c HI HW Hg) as (_ & HI' & HW'). now apply IH.
+  Qed.
+  Theorem store_inv_reachable o m cs : guarded (init o m) cs -> Inv (run (init o m) cs) /\ WF (run (init o m) cs).
+  Proof. intros HG. destruct (init_inv o m) as [HI _]. exact (run_inv cs _ HI (init_WF o m) HG). Qed.
 End Ins.
